@@ -22,8 +22,8 @@ from ref import docspec
 
 PROPERTY = "C03"
 LEVEL = "model_checking"
-RULE = ("explicit enumeration of document constructions: root variant x wrapper chain (each wrapper from a 21-entry menu) "
-        "x leaf (31 shape variants) inside, with probe leaves before and after the wrapped subtree, x configurations "
+RULE = ("explicit enumeration of document constructions: root variant x wrapper chain (each wrapper from a 23-entry menu) "
+        "x leaf (34 shape variants) inside, with probe leaves before and after the wrapped subtree, x configurations "
         "(reify, ppi, caller size, caller transform); model state = the reference renderer's state (CTM, viewport size, "
         "use stack) at each element; a transition = one element start; every rendered shape is compared.  Non-trivial: "
         "at least one wrapper or a non-default configuration; distinct = distinct (document, configuration).")
@@ -86,6 +86,11 @@ LEAVES = [
     ("circle-zero", '<circle id="{id}" cx="1" cy="2" r="0"/>'),
     ("polyline-empty", '<polyline id="{id}" points=""/>'),
     ("rect-round-auto", '<rect id="{id}" x="1" y="2" width="8" height="4" rx="3"/>'),
+    # point-list spellings the grammar allows: a minus sign starts the next number without any separator
+    ("polyline-compact", '<polyline id="{id}" points="10-5 20-3 4.5-2-7-8"/>'),
+    ("polygon-compact", '<polygon id="{id}" points="10-5,20-3\t4.5-2\n-7-8"/>'),
+    # a subpath closed twice (close, more drawing, close again: both closes return to the same start)
+    ("path-zz", '<path id="{id}" d="M1,2 L5,2 L5,6 z L0,5 z l1,1 z"/>'),
 ]
 PROBE_BEFORE = '<rect id="before" x="11" y="12" width="2" height="1"/>'
 PROBE_AFTER = '<rect id="after" width="2" height="1"/><circle id="after2" r="1.5"/><line id="after3" x2="4" y2="3"/><line id="after4" x1="10%" y1="10%" x2="50%" y2="75%"/>'
@@ -100,6 +105,8 @@ WRAPPERS = [
     ("svg-vb", '<svg x="10" y="20" width="40" height="30" viewBox="2 1 20 10">', '</svg>'),
     ("svg-par-novb", '<svg x="1" y="2" width="60" height="45" preserveAspectRatio="none">', '</svg>'),
     ("svg-novb", '<svg x="10" y="20" width="40" height="30">', '</svg>'),
+    ("svg-novb-yonly", '<svg y="9" width="40" height="30">', '</svg>'),
+    ("svg-novb-xonly", '<svg x="7" width="40" height="30">', '</svg>'),
     ("svg-vb-none", '<svg x="-3" y="4" width="40" height="10" viewBox="5 5 20 20" preserveAspectRatio="none">', '</svg>'),
     ("svg-vb-slice", '<svg width="40" height="10" viewBox="0 0 20 20" preserveAspectRatio="xMaxYMin slice">', '</svg>'),
     ("svg-bare", '<svg>', '</svg>'),
